@@ -61,7 +61,7 @@ def random_layout(r, big=False):
             sw = r.choice([8, 16, 32])
             gi = len(regs) + 1
             regs.append({"name": f"GRP{t}", "kind": "group", "width": sw * n_sub, "reverse": r.random() < 0.5, "parent": 0,
-                         "subs": list(range(gi + 1, gi + 1 + n_sub)), "rso": r.random() < 0.5, "fields": []})
+                         "subs": list(range(gi + 1, gi + 1 + n_sub)), "rso": r.random() < 0.5, "fields": [], "hexstr": r.random() < 0.5})
             for k in range(n_sub):
                 regs.append(mk_leaf(f"GRP{t}_S{k}", sw, tile_fields(r, f"GRP{t}_S{k}", sw, allow_reset=False) if r.random() < 0.6 else [], parent=gi))
     return {"regs": regs}
@@ -93,7 +93,8 @@ def to_spsdk(layout):
     for i, reg in enumerate(layout["regs"], start=1):
         if reg["kind"] == "group":
             groups.append({"uid": f"uid_{reg['name'].lower()}", "name": reg["name"], "width": reg["width"], "reversed": reg["reverse"],
-                           "reverse_subregs_order": reg["rso"], "sub_regs": [f"uid_{layout['regs'][s - 1]['name'].lower()}" for s in reg["subs"]]})
+                           "reverse_subregs_order": reg["rso"], "sub_regs": [f"uid_{layout['regs'][s - 1]['name'].lower()}" for s in reg["subs"]],
+                           "config_as_hexstring": bool(reg.get("hexstr", False))})      # the configuration carries the value as bare hex digits
             continue
         spec = {"id": f"uid_{reg['name'].lower()}", "name": reg["name"], "offset_int": hex(offset), "reg_width": str(reg["width"]),
                 "description": f"{reg['name']} register", "bitfields": []}
@@ -295,7 +296,11 @@ QUERIES = ["names", "names_grp", "regs_grp", "find_grp", "bitfield_names", "conf
 
 
 def random_value(r, w):
-    k = r.randrange(8)
+    k = r.randrange(10)
+    if k == 8:        # every hex digit is a decimal digit (a bare-hex configuration value must still be read as hexadecimal)
+        return bits_of(int("".join(r.choice("0123456789") for _ in range((w + 3) // 4)), 16) & ((1 << w) - 1))
+    if k == 9:        # small value: leading zeros in every fixed-width rendering
+        return bits_of(r.choice([1, 2, 9, 0x10, 0x20, 0x99, 0x100]) & ((1 << w) - 1))
     if k == 0:
         return []
     if k == 1:
@@ -339,6 +344,36 @@ def random_behaviour(layouts, r, n):
         else:
             hist.append({"a": "Query", "q": r.choice(QUERIES)})
     return {"lay": li + 1, "hist": hist}
+
+
+def scenario_behaviours(layouts, r):
+    """Short targeted histories for every group of every layout (interplay of the group view, its sub-registers and the written configuration)."""
+    out = []
+    for li, lay in enumerate(layouts, 1):
+        L = lay["regs"]
+        for gi, g in enumerate(L, 1):
+            if g["kind"] != "group":
+                continue
+            w = g["width"]
+            digits = bits_of(int("".join(r.choice("123456789") for _ in range(w // 4)), 16))
+            small = bits_of(r.choice([0x10, 0x20, 0x99, 0x100]) & ((1 << w) - 1))
+            sub = r.choice(g["subs"])
+            sw = L[sub - 1]["width"]
+            for v0 in (digits, small):
+                # configuration written from a value whose hex digits are all decimal digits / that has leading zeros
+                out.append({"lay": li, "hist": [{"a": "SetReg", "r": gi, "v": v0, "raw": False}, {"a": "ConfigRoundTrip", "diff": False},
+                                                {"a": "ConfigRoundTrip", "diff": True}]})
+            # the group is read, then a sub-register is written behind its back, then the group is read / written out again
+            for raw in (False, True):
+                out.append({"lay": li, "hist": [{"a": "SetReg", "r": gi, "v": random_value(r, w)[:w], "raw": raw}, {"a": "Query", "q": "config"},
+                                                {"a": "SetReg", "r": sub, "v": bits_of(r.getrandbits(sw) | 1), "raw": r.random() < 0.5},
+                                                {"a": "Query", "q": "config"}, {"a": "ConfigRoundTrip", "diff": False}, {"a": "ExportParse"}]})
+            fl = [(k, f) for k, f in enumerate(L[sub - 1]["fields"], 1) if not f["hidden"]]
+            if fl:
+                k, f = r.choice(fl)
+                out.append({"lay": li, "hist": [{"a": "Query", "q": "config"}, {"a": "SetField", "r": sub, "f": k, "v": bits_of(r.getrandbits(f["width"]) | 1)},
+                                                {"a": "Query", "q": "config"}, {"a": "ConfigRoundTrip", "diff": True}, {"a": "ExportParse"}]})
+    return out
 
 
 def replay_behaviour(layouts, beh, tid, r):
@@ -448,6 +483,7 @@ def run(tier):
     say(f"[C11] GEN2 done {v.timer.s()}s: {len(behs2)} behaviours")
     # seeded random behaviours over the same action alphabet (code -> spec direction only: TLC decides them all the same)
     behs2 += [random_behaviour(layouts2, r, 16) for _ in range(400 if tier == "quick" else 6000)]
+    behs2 += scenario_behaviours(layouts2, r)
     traces2 = [replay_behaviour(layouts2, b, 100000 + i, r) for i, b in enumerate(behs2)]
     say(f"[C11] replay2 done {v.timer.s()}s")
     v.count(len(traces2))
